@@ -62,6 +62,8 @@ type caseT struct {
 	Progs  []callT `json:"progs"`
 	Kinds  []kindT `json:"kinds"`
 	Sched  []stepT `json:"sched"`
+	// Equiv: "" / "none", or "coll" / "val": the resource is built WithNoDuplicates (see ResourceConc.tla)
+	Equiv  string  `json:"equiv"`
 	Stress int     `json:"stress"` // >0: run free-running this many times instead of following sched
 	// Attack marks a schedule taken from a named-deviation variant of the specification (a behaviour the
 	// repaired design forbids): where the real code refuses a step (a goroutine blocks on the lock that
@@ -102,6 +104,7 @@ type runLog struct {
 	N         int       `json:"n"`
 	Mode      string    `json:"mode"` // "forced" | "stress"
 	Res       string    `json:"res"`
+	Equiv     string    `json:"equiv"`
 	Init      []int     `json:"init"`
 	Progs     []callT   `json:"progs"`
 	Kinds     []kindT   `json:"kinds"`
@@ -372,13 +375,16 @@ func (s subscription) recv(d time.Duration) (recvT, bool) {
 }
 
 func build(c caseT) target {
+	var ro []resource.Option
+	if c.Equiv != "" && c.Equiv != "none" {
+		ro = append(ro, resource.WithNoDuplicates())
+	}
 	if c.Res == "val" {
 		if c.Init[0] == absent {
-			return target{val: resource.NewValue()} // nothing stored until the first Set
+			return target{val: resource.NewValue(ro...)} // nothing stored until the first Set
 		}
-		return target{val: resource.NewValue(resource.WithInitialValue(msg(c.Init[0])))}
+		return target{val: resource.NewValue(append(ro, resource.WithInitialValue(msg(c.Init[0])))...)}
 	}
-	var ro []resource.Option
 	for i, v := range c.Init {
 		if v != absent {
 			ro = append(ro, resource.WithInitialRecord(ids[i+1], msg(v)))
@@ -399,7 +405,7 @@ func newWorld(c caseT, forced bool) *world {
 func runForced(c caseT) runLog {
 	w := newWorld(c, true)
 	t := build(c)
-	lg := runLog{N: c.N, Mode: "forced", Res: c.Res, Init: c.Init, Progs: c.Progs, Kinds: c.Kinds, Sched: c.Sched,
+	lg := runLog{N: c.N, Mode: "forced", Res: c.Res, Equiv: c.Equiv, Init: c.Init, Progs: c.Progs, Kinds: c.Kinds, Sched: c.Sched,
 		Results: make([]resultT, len(c.Progs)), Recv: make([][]recvT, len(c.Kinds)), SubAfter: make([]int, len(c.Kinds)),
 		Commits: []commitT{}, Cancelled: make([]bool, len(c.Kinds))}
 	for i := range lg.Recv {
@@ -564,7 +570,8 @@ func runForced(c caseT) runLog {
 	for _, k := range c.Kinds {
 		lossyAny = lossyAny || k.Lossy
 	}
-	if (lg.Drift != "" || lossyAny) && lg.Problem == "" {
+	// (a schedule of a deviation variant may end where the real code still has something to hand over)
+	if (lg.Drift != "" || lossyAny || c.Attack) && lg.Problem == "" {
 		// drain what the forwarders still hold so that the received sequences are complete
 		for i := range subs {
 			if subs[i].vch == nil && subs[i].cch == nil {
@@ -594,7 +601,7 @@ func runStress(c caseT, iter int) runLog {
 	w := newWorld(c, false)
 	t := build(c)
 	rnd := hx.Rand(int64(c.N)*7919 + int64(iter))
-	lg := runLog{N: c.N, Mode: "stress", Res: c.Res, Init: c.Init, Progs: c.Progs, Kinds: c.Kinds, Sched: []stepT{},
+	lg := runLog{N: c.N, Mode: "stress", Res: c.Res, Equiv: c.Equiv, Init: c.Init, Progs: c.Progs, Kinds: c.Kinds, Sched: []stepT{},
 		Results: make([]resultT, len(c.Progs)), Recv: make([][]recvT, len(c.Kinds)), SubAfter: make([]int, len(c.Kinds)),
 		Commits: []commitT{}, Cancelled: make([]bool, len(c.Kinds))}
 	ctx, cancel := context.WithCancel(context.Background())
